@@ -334,6 +334,12 @@ class H2Peer:
         self._after = after
         self._npieces = len(pieces)
         self.feeding = len(pieces) >= 1
+        if not pieces and after:
+            # nothing could be sent (e.g. an upload against a window of 0): what the step set out to do is
+            # still noted - the session calls fed() only for bytes that went out
+            for rid, upd in after:
+                self._log_progress(rid, 0, **upd)
+            self._after = []
         if started:
             self.after_start()
         return [p for p in pieces]
@@ -344,6 +350,9 @@ class H2Peer:
             self._cur_ws.fed(index, n)
         elif self._npieces == 0:
             self.sess.trace.log("c_send", upto=0, n=n, reqs=[], cerr=False)
+            for rid, upd in self._after:      # e.g. an upload that could not even start: the stall is still noted
+                self._log_progress(rid, n, **upd)
+            self._after = []
         elif index == self._npieces - 1:
             for rid, upd in self._after:
                 self._log_progress(rid, n, **upd)
